@@ -63,6 +63,46 @@ def handle (op : String) (j : Json) : Option (R Json) :=
   | "field.overlap" => some do
       let fs ← (← getArr j "fields").mapM fldOfJson
       pure (okJ [("overlap", Json.bool (overlapL fs.toList))])
+  | "field.mulz" => some do
+      let a ← zfldOfJson (← j.getObjVal? "a"); let b ← zfldOfJson (← j.getObjVal? "b")
+      match a.mul b with
+      | none => pure (okJ [("fields", Json.arr #[])])
+      | some p => pure (okJ [("fields", Json.arr #[zfldToJson p])])
+  | "field.chain" => some do
+      -- p = a * b (an empty product is dropped, as Plane.multiply does), then one more operation on p
+      let a ← zfldOfJson (← j.getObjVal? "a"); let b ← zfldOfJson (← j.getObjVal? "b")
+      let cs ← (← getArr j "cs").mapM zfldOfJson
+      let next ← (← j.getObjVal? "then").getStr?
+      let p := a.mul b
+      match next with
+      | "mul" =>
+        let c0 ← match cs[0]? with | some c => pure c | none => throw "field.chain: mul needs one more field"
+        match p.bind (fun p => p.mul c0) with
+        | none => pure (okJ [("fields", Json.arr #[]), ("dropped", Json.bool p.isNone)])
+        | some q => pure (okJ [("fields", Json.arr #[zfldToJson q]), ("dropped", Json.bool false)])
+      | "merge" =>
+        match p with
+        | none => pure (okJ [("fields", Json.arr #[]), ("dropped", Json.bool true)])
+        | some p =>
+          match mergeZ (p :: cs.toList) with
+          | none => pure (errJ "ValueError")
+          | some q => pure (okJ [("fields", Json.arr #[zfldToJson q]), ("dropped", Json.bool false)])
+      | "reduce" =>
+        let out := reduceZ (p.toList ++ cs.toList)
+        if out.any Option.isNone then pure (errJ "ValueError")
+        else pure (okJ [("fields", Json.arr (out.filterMap id |>.map zfldToJson).toArray), ("dropped", Json.bool p.isNone)])
+      | "insert" =>
+        let out ← arrOfJson (← j.getObjVal? "out")
+        let w ← getInt j "weight"
+        let inten ← getBool j "intensity"
+        match p with
+        | none => pure (okJ [("out", arrToJson out), ("dropped", Json.bool true)])
+        | some p =>
+          if p.zd then pure (errJ "ValueError")
+          else
+            let res := if inten then insertArr p.fld out ⟨w, 0⟩ (fun z => GI.normSq z) else insertArr p.fld out ⟨w, 0⟩
+            pure (okJ [("out", arrToJson res), ("dropped", Json.bool false)])
+      | _ => throw "field.chain: unknown step"
   | "field.insert" => some do
       let f ← fldOfJson (← j.getObjVal? "field"); let out ← arrOfJson (← j.getObjVal? "out")
       let w ← getInt j "weight"
